@@ -21,11 +21,15 @@ type bframe struct {
 	stack    []int
 	closing  bool // the function of this T has returned/panicked: its cleanups are running
 	cleaning bool // a cleanup of this T has started
+	running  int  // cleanup functions of this T that have started and not yet ended
 }
 
-// checkBracket returns "" when the event log obeys the discipline
+// checkBracket returns "" when the event log (Run.Brk: events plus the end of every cleanup function) obeys the
+// discipline.  A Custom generator's inner T is a frame: it is finished when its function has ended, its stack
+// is empty and none of its cleanup functions is still running.
 func checkBracket(events []string) string {
 	frames := []*bframe{{}}
+	var runningIn []*bframe // frames of the cleanup functions currently executing, innermost last
 	top := func() *bframe { return frames[len(frames)-1] }
 	num := func(e string) int {
 		f := strings.Fields(strings.Trim(e, "()"))
@@ -33,21 +37,21 @@ func checkBracket(events []string) string {
 		return n
 	}
 	dropDone := func() {
-		// an inner T whose function ended and whose stack is empty is finished
-		for len(frames) > 1 && top().closing && len(top().stack) == 0 {
+		for len(frames) > 1 && top().closing && len(top().stack) == 0 && top().running == 0 {
 			frames = frames[:len(frames)-1]
 		}
 	}
 	for i, e := range events {
+		if !strings.HasPrefix(e, "(URunEnd") {
+			dropDone()
+		}
 		switch {
 		case e == "UCustomBegin":
-			dropDone()
 			frames = append(frames, &bframe{})
 		case strings.HasPrefix(e, "(UCustomEnd"):
 			// the innermost frame that is not yet closing is the one whose function just ended
 			for j := len(frames) - 1; j >= 1; j-- {
 				if !frames[j].closing {
-					// frames above it must be finished
 					for k := j + 1; k < len(frames); k++ {
 						if len(frames[k].stack) != 0 {
 							return fmt.Sprintf("event %d: inner T left with %d cleanups not run", i, len(frames[k].stack))
@@ -59,17 +63,8 @@ func checkBracket(events []string) string {
 				}
 			}
 		case strings.HasPrefix(e, "(UReg "):
-			dropDone2 := func() {
-				for len(frames) > 1 && top().closing && len(top().stack) == 0 && !top().cleaning {
-					frames = frames[:len(frames)-1]
-				}
-			}
-			dropDone2()
 			top().stack = append(top().stack, num(e))
 		case strings.HasPrefix(e, "(URun "):
-			for len(frames) > 1 && top().closing && len(top().stack) == 0 {
-				frames = frames[:len(frames)-1]
-			}
 			f := top()
 			if len(f.stack) == 0 {
 				return fmt.Sprintf("event %d: cleanup %d runs but is not registered on the current T (or ran already)", i, num(e))
@@ -79,6 +74,13 @@ func checkBracket(events []string) string {
 			}
 			f.stack = f.stack[:len(f.stack)-1]
 			f.cleaning = true
+			f.running++
+			runningIn = append(runningIn, f)
+		case strings.HasPrefix(e, "(URunEnd "):
+			if len(runningIn) > 0 {
+				runningIn[len(runningIn)-1].running--
+				runningIn = runningIn[:len(runningIn)-1]
+			}
 		case e == "(UCtxSeen true)":
 			if top().cleaning {
 				return fmt.Sprintf("event %d: live context observed after a cleanup of the same T started", i)
@@ -128,9 +130,9 @@ func cmdC10Oracle(args []string) {
 					stats["context_samples"]++
 				}
 			}
-			if msg := checkBracket(run.Events); msg != "" {
+			if msg := checkBracket(run.Brk); msg != "" {
 				fails = append(fails, map[string]any{"property": "C10", "what": "bracket discipline violated: " + strings.SplitN(msg, ":", 2)[len(strings.SplitN(msg, ":", 2))-1],
-					"detail": msg, "invocation": j, "events": run.Events, "program": p.Root.coq(), "index": i})
+					"detail": msg, "invocation": j, "events": run.Brk, "program": p.Root.coq(), "index": i})
 				break
 			}
 			for _, v := range run.CtxViolations {
